@@ -94,7 +94,8 @@ for _k, _v in {
  "C03": "Round 12: C03/framed-only-through-sendrpc (who-may-write: the framed bytes of a serialized request reach the channel through sendRPC only).",
  "C04": "Round 12: C04/onx-send-command (a platform hook's send-command step is (*network.Driver).SendCommand).",
  "C05": "Round 12: C05/closed-result-zero is path-based (no send-less exit of a result-closing worker is reachable without a context-over edge; one-level helper verdicts followed); C05/found-send-input, C05/found-get-prompt.",
- "C07": "Round 12: C07/reader-released (restated C06/reader: Channel.Read looks at the error channel before it dequeues).",
+ "C06": "Round 12: C06/close-callers (who-may-call: Channel.Close is called by Open and Close methods only).",
+ "C07": "Round 12: C07/reader-released (restated C06/reader: Channel.Read looks at the error channel before it dequeues), C07/close-callers.",
  "C08": "Round 12: C08/own-id also rejects a filing that is conditional on a subscription id; C08/store-unconditional (storeMessage / storeSubscriptionMessage file on every path); C08/closed-result-zero; C08/submatch-guarded (found G23).",
  "C09": "Round 12: C09/hello-delimiter-installed (netconf.NewDriver stores the end-of-message delimiter behind the option loop on every success path); C09/submatch-guarded.",
  "C10": "Round 12: C10/cleanup-requeue also demands that the bytes of every Authenticate* call of Open merge into the requeued value; C10/found-telnet-negotiation, C10/found-driver-options.",
